@@ -50,28 +50,50 @@ METHODS = {
     "byte": [("byte_length", "idx")],
     "addmod": [("modulus_value",)],
     "mulmod": [("modulus_value",)],
+    "eq": [("other_value", "self_value")],     # `self._value == other._value`: int reading of the overloaded ==
+    "is_zero": [("self_value",)],              # `self._value == 0`
 }
 # method -> expected concrete-path returns `return HalmosBitVec(<int arithmetic>, size=...)`, in
 # source order, each the sorted tuple of the names it may use (= the parameters of r_/rd_/rw_)
 RETS = {
-    "add": [("other__value", "self__value")],
-    "sub": [("other__value", "self__value")],
+    "add": [("other_value", "self_value")],
+    "sub": [("other_value", "self_value")],
     "mul": [("lhs", "rhs"), ("lhs", "rhs"), ("lhs", "rhs")],
     "div": [("lhs", "rhs")],
     "mod": [("lhs", "rhs")],
     "exp": [("lhs", "rhs", "size")],
     "addmod": [("modulus_value", "other_value", "self_value")],
     "mulmod": [("modulus_value", "other_value", "self_value")],
-    "lshl": [("self__value", "shift_amount")],
+    "lshl": [("self_value", "shift_amount")],
     "lshr": [("self_value", "shift_amount")],
-    "bitwise_not": [("self__size", "self__value")],
-    "bitwise_and": [("other__value", "self__value")],
-    "bitwise_or": [("other__value", "self__value")],
-    "bitwise_xor": [("other__value", "self__value")],
+    "bitwise_not": [("self_size", "self_value")],
+    "bitwise_and": [("other_value", "self_value")],
+    "bitwise_or": [("other_value", "self_value")],
+    "bitwise_xor": [("other_value", "self_value")],
 }
 EXPRS = {
     "signextend": {"bl": ("size",)},
     "byte": {"byte_length": ("size",), "lo": ("byte_length", "idx"), "hi": ("lo",)},
+    "mod": {"bitsize": ("rhs_bit_length",)},        # `rhs.bit_length()` is the parameter rhs_bit_length
+    "addmod": {"newsize": ("size",)},
+    "mulmod": {"newsize": ("size",)},
+}
+# every operation method of HalmosBitVec: the ones not listed in METHODS / RETS must have no
+# comparison guard / no arithmetic concrete-path return (a new native fast path has to be modelled
+# before it is trusted)
+OPS = ["add", "sub", "mul", "div", "sdiv", "mod", "smod", "exp", "addmod", "mulmod", "signextend", "lshl", "lshr",
+       "ashr", "bitwise_not", "bitwise_and", "bitwise_or", "bitwise_xor", "ult", "ugt", "slt", "sgt", "ule", "uge",
+       "eq", "byte", "is_zero"]
+# number of branch points (if / conditional expression / match case) of every method the model follows
+# branch by branch (HalmosBool.__new__/__init__ are not: the model only has TRUE/FALSE | BoolRef)
+BRANCHES = {
+    "HalmosBitVec": {"__new__": 2, "__init__": 11, "as_z3": 1, "is_zero": 0, "is_non_zero": 0, "add": 0, "sub": 0,
+                     "mul": 10, "div": 6, "sdiv": 5, "mod": 6, "smod": 5, "exp": 6, "addmod": 4, "mulmod": 4,
+                     "signextend": 1, "lshl": 3, "lshr": 4, "ashr": 1, "bitwise_not": 1, "bitwise_and": 0,
+                     "bitwise_or": 0, "bitwise_xor": 0, "ult": 1, "ugt": 2, "slt": 1, "sgt": 1, "ule": 1, "uge": 1,
+                     "eq": 0, "byte": 2},
+    "HalmosBool": {"as_z3": 1, "value": 2, "is_zero": 2, "is_non_zero": 0, "eq": 0, "neg": 0, "bitwise_not": 0,
+                   "bitwise_and": 4, "bitwise_or": 4, "bitwise_xor": 4, "as_bv": 4},
 }
 CMP_OK = (ast.Eq, ast.Lt, ast.LtE, ast.Gt, ast.GtE)
 
@@ -79,9 +101,19 @@ CMP_OK = (ast.Eq, ast.Lt, ast.LtE, ast.Gt, ast.GtE)
 class _Flatten(ast.NodeTransformer):
     """`a.b` -> Name `a_b` (only Name.attr, one level)."""
 
+    def visit_Call(self, node):
+        f = node.func   # `x.bit_length()` -> Name `x_bit_length`
+        if (isinstance(f, ast.Attribute) and f.attr == "bit_length" and isinstance(f.value, ast.Name)
+                and not node.args and not node.keywords):
+            return ast.copy_location(ast.Name(id=f"{f.value.id}_bit_length", ctx=ast.Load()), node)
+        if isinstance(f, ast.Name) and f.id == "pow" and not node.keywords:
+            node.args = [self.visit(a) for a in node.args]
+            return node
+        raise TranslateError(f"unsupported call shape {ast.unparse(node)!r}")
+
     def visit_Attribute(self, node):
         if isinstance(node.value, ast.Name):
-            return ast.copy_location(ast.Name(id=f"{node.value.id}_{node.attr}", ctx=ast.Load()), node)
+            return ast.copy_location(ast.Name(id=f"{node.value.id}_{node.attr.lstrip(chr(95))}", ctx=ast.Load()), node)
         raise TranslateError(f"unsupported attribute shape {ast.unparse(node)!r}")
 
 
@@ -158,6 +190,8 @@ def _arith(node):
         elif isinstance(n, ast.Constant):
             if isinstance(n.value, bool) or not isinstance(n.value, int):
                 return False
+        elif isinstance(n, ast.BinOp) and isinstance(n.op, (ast.Div, ast.MatMult)):
+            return False   # `/` is never int arithmetic here (z3 overload, or the latent `other / self`)
         elif not isinstance(n, (ast.BinOp, ast.UnaryOp, ast.Name, ast.Attribute, ast.Load, ast.operator, ast.unaryop)):
             return False
     return True
@@ -279,8 +313,19 @@ def translate(src_text):
     info["to_signed"] = [ast.unparse(body[0]), ast.unparse(body[1])]
     lines.append("")
 
+    # ---- branch structure
+    info["branches"] = {}
+    for cls, table in BRANCHES.items():
+        for m, want in table.items():
+            fn = find_function(tree, m, cls=cls)
+            got_n = sum(isinstance(x, (ast.If, ast.IfExp, ast.match_case)) for x in ast.walk(fn))
+            if got_n != want:
+                raise TranslateError(f"{cls}.{m}: {got_n} branch points, the model follows {want}")
+            info["branches"][f"{cls}.{m}"] = got_n
+
     # ---- guards and integer expressions of the HalmosBitVec methods
-    for m, expected in METHODS.items():
+    for m in OPS:
+        expected = METHODS.get(m, [])
         fn = find_function(tree, m, cls="HalmosBitVec")
         gs = _guards(fn)
         got = []
@@ -309,7 +354,8 @@ def translate(src_text):
         lines.append("")
 
     # ---- concrete-path return expressions
-    for m, expected in RETS.items():
+    for m in OPS:
+        expected = RETS.get(m, [])
         fn = find_function(tree, m, cls="HalmosBitVec")
         rs = _returns(fn)
         got, texts = [], []
